@@ -10,14 +10,14 @@ open Rosmar Rosmar.Sql
 /-! ### PurgeTombstones: `value IS NULL` (bucket-wide) -/
 
 theorem tie_purge_pred (cid : Nat) (k : String) (r : Row) :
-    Bucket_PurgeTombstones_WHERE_0.selects (env []) (enc cid k r) = r.value.isNone := by
+    sel_by_valueNull.selects (env []) (enc cid k r) = r.value.isNone := by
   cases h : r.value <;>
-  simp [Bucket_PurgeTombstones_WHERE_0, Select.selects, E.eval, SRow.get, env, enc, encV, ofBool, SV.truthy, h]
+  simp [sel_by_valueNull, Select.selects, E.eval, SRow.get, env, enc, encV, ofBool, SV.truthy, h]
 
 /-- `opPurge` keeps exactly the rows the regenerated DELETE does not select. -/
 theorem tie_purge_keeps (cid : Nat) (docs : Docs) :
     docs.filter (fun d => d.2.value.isSome)
-      = docs.filter (fun d => !Bucket_PurgeTombstones_WHERE_0.selects (env []) (enc cid d.1 d.2)) := by
+      = docs.filter (fun d => !sel_by_valueNull.selects (env []) (enc cid d.1 d.2)) := by
   apply List.filter_congr
   intro d _
   rw [tie_purge_pred]
@@ -26,13 +26,13 @@ theorem tie_purge_keeps (cid : Nat) (docs : Docs) :
 /-! ### Exists / isTombstone -/
 
 theorem tie_exists_pred (cid : Nat) (k : String) (r : Row) :
-    Collection_exists_WHERE_0.selects (env [("$where.collection", .int cid), ("$where.key", .text k)]) (enc cid k r) = r.value.isSome := by
+    sel_by_collection_key_valueSet.selects (env [("$where.collection", .int cid), ("$where.key", .text k)]) (enc cid k r) = r.value.isSome := by
   cases h : r.value <;>
-  simp [Collection_exists_WHERE_0, Select.selects, E.eval, SRow.get, env, enc, encV, ofBool, SV.truthy, SV.same, h]
+  simp [sel_by_collection_key_valueSet, Select.selects, E.eval, SRow.get, env, enc, encV, ofBool, SV.truthy, SV.same, h]
 
 theorem tie_istombstone_pred (cid : Nat) (k : String) (r : Row) :
-    Collection_isTombstone_WHERE_0.selects (env [("$where.collection", .int cid), ("$where.key", .text k)]) (enc cid k r) = r.tomb := by
+    sel_by_collection_key_tombstoneIs1.selects (env [("$where.collection", .int cid), ("$where.key", .text k)]) (enc cid k r) = r.tomb := by
   cases h : r.tomb <;>
-  simp [Collection_isTombstone_WHERE_0, Select.selects, E.eval, SRow.get, env, enc, ofBool, SV.truthy, SV.same, h]
+  simp [sel_by_collection_key_tombstoneIs1, Select.selects, E.eval, SRow.get, env, enc, ofBool, SV.truthy, SV.same, h]
 
 end Rosmar.Gen.Sql
